@@ -3,10 +3,10 @@ package main
 import (
 	"errors"
 	"fmt"
-	"time"
 	"math/rand"
 	"reflect"
 	"strings"
+	"time"
 
 	"github.com/reusee/sb"
 )
